@@ -25,7 +25,7 @@ def run_hstress(scratch, testbin, tier, prop):
     from concurrent.futures import ThreadPoolExecutor
     with ThreadPoolExecutor(procs) as ex:
         runs = list(ex.map(one, range(procs)))
-    rep = dict(problems=[], ops=0, accepted=0, refused=0, distinct_histories=0, hook_traces=0, hook_events=0)
+    rep = dict(problems=[], ops=0, accepted=0, refused=0, distinct_histories=0, hook_traces=0, hook_events=0, handoff_rounds=0)
     hist, hook = scratch.file("hstress.hist.ndjson"), scratch.file("hstress.hook.ndjson")
     seen_hist = set()
     ntrace = 0
@@ -45,7 +45,7 @@ def run_hstress(scratch, testbin, tier, prop):
                 raise Infra("TestHandlerStress: no report and no library panic:\n" + p.stdout[-3000:])
             r = json.loads(rl[0][8:])
             rep["problems"] += r["problems"]
-            for k in ("ops", "accepted", "refused", "hook_traces", "hook_events"):
+            for k in ("ops", "accepted", "refused", "hook_traces", "hook_events", "handoff_rounds"):
                 rep[k] += r[k]
             # merge the histories (distinct across processes) and the hook traces (renumbered)
             block, key = [], None
@@ -83,8 +83,8 @@ def run_hstress(scratch, testbin, tier, prop):
     out.pop("_hk", None)
     rep["distinct_histories"] = ntrace
     for prob in rep["problems"][:20]:
-        if prop in ("C09", "C10"):
-            out["violations"].append(dict(sig="hstress|%s" % re.sub(r"[^a-zA-Z]+", "-", re.sub(r"big round \d+ \(N=\d+\): |round \d+: ", "", prob))[:60], detail=prob,
+        if (prop == "C16") if prob.startswith("hand-off") else (prop in ("C09", "C10")):
+            out["violations"].append(dict(sig="hstress|%s" % re.sub(r"[^a-zA-Z]+", "-", re.sub(r"big round \d+ \(N=\d+\): |hand-off round \d+: |round \d+: ", "hand-off " if prob.startswith("hand-off") else "", prob))[:60], detail=prob,
                                           replay=dict(check="hstress", rounds=rounds, seed=seed())))
     if ntrace == 0:
         out.update(ops=rep["ops"], histories=0, hook_events=0, hook_traces=0, accepted_histories=0)
@@ -144,7 +144,7 @@ def run_hstress(scratch, testbin, tier, prop):
                            "handler's critical sections" % (r[0], r[1], r[2], r[3], r[4], r[5]),
                     replay=dict(check="hstress", rejected=r)))
     out.update(ops=rep["ops"], sends_accepted=rep["accepted"], sends_refused=rep["refused"], histories=rep["distinct_histories"], accepted_histories=accepted,
-               hook_traces=rep["hook_traces"], hook_events=rep["hook_events"], lin_states=lin_states)
+               hook_traces=rep["hook_traces"], hook_events=rep["hook_events"], lin_states=lin_states, handoff_rounds=rep["handoff_rounds"])
     rounds = out["rounds"]
     log("HandlerStress: %d rounds free-running (%d operations): %d distinct histories, %d linearizable w.r.t. InFlightAbs; %d lock-level traces / %d trace points "
         "validated by InFlightHook; %d violations for %s" % (rounds, rep["ops"], rep["distinct_histories"], accepted, rep["hook_traces"], rep["hook_events"],
